@@ -2580,6 +2580,9 @@ setattr_delegate(
     PyObject *daname;
     PyObject *daname2;
     PyObject *temp;
+    /* Owned references keeping computed (non-dictionary) delegates alive: */
+    PyObject *held = NULL;
+    PyObject *held_owner = NULL;
     has_traits_object *delegate;
     has_traits_object *temp_delegate;
     has_traits_object *owner;
@@ -2605,16 +2608,21 @@ setattr_delegate(
             delegate = (has_traits_object *)has_traits_getattro(
                 delegate, traitd->delegate_name);
             if (delegate == NULL) {
-                Py_DECREF(daname);
-                return -1;
+                result = -1;
+                goto done;
             }
-            Py_DECREF(delegate);
+            /* The result may be a temporary object: keep it alive for as
+               long as it is in use (and its predecessor while it is still
+               used as 'owner'). */
+            Py_XDECREF(held_owner);
+            held_owner = held;
+            held = (PyObject *)delegate;
         }
 
         // Verify that 'delegate' is of type 'CHasTraits':
         if (!PyHasTraits_Check(delegate)) {
-            Py_DECREF(daname);
-            return bad_delegate_error2(obj, name);
+            result = bad_delegate_error2(obj, name);
+            goto done;
         }
 
         daname2 = traitd->delegate_attr_name(traitd, owner, daname);
@@ -2628,13 +2636,13 @@ setattr_delegate(
                      delegate->ctrait_dict, daname))
                 == NULL)
             && ((traitd = get_prefix_trait(delegate, daname, 1)) == NULL)) {
-            Py_DECREF(daname);
-            return bad_delegate_error(obj, name);
+            result = bad_delegate_error(obj, name);
+            goto done;
         }
 
         if (Py_TYPE(traitd) != ctrait_type) {
-            Py_DECREF(daname);
-            return fatal_trait_error();
+            result = fatal_trait_error();
+            goto done;
         }
 
         if (traitd->delegate_attr_name == NULL) {
@@ -2656,15 +2664,20 @@ setattr_delegate(
                     }
                 }
             }
-            Py_DECREF(daname);
-
-            return result;
+            goto done;
         }
 
         if (++i >= 100) {
-            return delegation_recursion_error(obj, name);
+            result = delegation_recursion_error(obj, name);
+            goto done;
         }
     }
+
+done:
+    Py_DECREF(daname);
+    Py_XDECREF(held);
+    Py_XDECREF(held_owner);
+    return result;
 }
 
 /*-----------------------------------------------------------------------------
